@@ -241,20 +241,22 @@ theorem InvD.preserved_delay {cfg : Cfg} {s : State} {n : Nat} (hB : InvB s) (hI
     unfold rtUrgent at u1
     rcases hrt with h | h | h <;> simp at h <;> simp [h] at u1
 
-theorem InvD.preserved {cfg : Cfg} {s s' : State} {l : Label} (hB : InvB s) (hC : InvC s)
-    (hI : InvD cfg s) (h : step cfg s l = some s') : InvD cfg s' := by
+/-- `InvD` is an invariant of COOPERATIVE runs (time passes only where `coopDelay` allows). -/
+theorem InvD.preservedC {cfg : Cfg} {s s' : State} {l : Label} (hB : InvB s) (hC : InvC s)
+    (hI : InvD cfg s) (h : stepC cfg s l = some s') : InvD cfg s' := by
   cases l with
   | delay n =>
-    simp only [step] at h
-    split at h
-    · rename_i hg
-      cases h
-      exact InvD.preserved_delay hB hI hg.2.2.1 hg.2.2.2
-    · cases h
-  | _ => exact InvD.preserved_nodelay hB hC hI (by intro n hn; cases hn) h
+    have hc := coopDelay_iff.mp (stepC_delay h)
+    have h2 := stepC_step h
+    simp only [step] at h2
+    split at h2
+    · cases h2
+      exact InvD.preserved_delay hB hI hc.1 hc.2
+    · cases h2
+  | _ => exact InvD.preserved_nodelay hB hC hI (by intro n hn; cases hn) (stepC_step h)
 
-theorem InvD.reach {cfg : Cfg} {s : State} (h : Reach cfg s) : InvD cfg s :=
-  Reach.induction (P := InvD cfg) (InvD.init cfg)
-    (fun _ _ _ hr hI hs => InvD.preserved (InvB.reach hr) (InvC.reach hr) hI hs) s h
+theorem InvD.reachC {cfg : Cfg} {s : State} (h : ReachC cfg s) : InvD cfg s :=
+  ReachC.induction (P := InvD cfg) (InvD.init cfg)
+    (fun _ _ _ hr hI hs => InvD.preservedC (InvB.reach hr.reach) (InvC.reach hr.reach) hI hs) s h
 
 end Kopf.C20
